@@ -3,6 +3,7 @@ from __future__ import annotations
 
 import io
 import json
+import os
 import random
 import subprocess
 import sys
@@ -155,7 +156,7 @@ def run(ctx: Ctx) -> int:
     for s in [x for x in states if x["mode"] == "ndjson" and 1 <= len(x["docs"]) <= 3][:: max(1, len(states) // (6 if q else 40))]:
         text_in = "".join(doc_text(d, k) + "\n" for k, d in enumerate(s["docs"]))
         p = subprocess.run([sys.executable, "-m", "celpy"] + (["-b"] if s["flagb"] else []) + [celx.render_ast(s["expr"])], input=text_in, capture_output=True, text=True,
-                           env={"PYTHONPATH": "/repo/src", "PATH": "/usr/bin:/bin"})
+                           env={"PYTHONPATH": os.environ.get("VERIF_REPO", "/repo") + "/src", "PATH": "/usr/bin:/bin"})
         sub += 1
         want = [w for w in s["lines"] if w["j"] != "noline"]
         got = parse_lines(p.stdout)
